@@ -7,6 +7,7 @@
 //
 #define BOOSTER_SOURCE
 
+#include <booster/verif_hooks.h>
 #include <booster/config.h>
 
 #ifndef BOOSTER_WIN32
@@ -253,6 +254,9 @@ public:
 		stop_(false),
 		polling_(false)
 	{
+#ifdef ARTYOM_BEILIS_CPPCMS_VERIF
+		seed_ = artyom_beilis_cppcms_verif_rand ? artyom_beilis_cppcms_verif_rand() : 0;
+#endif
 	}
 	void post(handler const &h)
 	{
